@@ -182,6 +182,9 @@ def shutdown_case(spec):
     return res
 
 
+FLAGGED = [None]  # set while a message is generated that holds a value of a recorded finding's kind
+
+
 def gen_rich(rng, which):
     """Returns (value, expected decoded image or callable checker)."""
     r = rng.randrange(17)
@@ -252,6 +255,10 @@ def gen_rich(rng, which):
         return d, d.isoformat()
     if r == 4:
         t = datetime.time(rng.randint(0, 23), rng.randint(0, 59), rng.randint(0, 59), rng.choice([0, 5, 999999]))
+        if not NO_ORJSON and which != "c" and rng.random() < 0.1:
+            # a time of day WITH a UTC offset (recorded finding: orjson refuses those before any json_default is asked)
+            t = t.replace(tzinfo=rng.choice([datetime.timezone.utc, datetime.timezone(datetime.timedelta(hours=2))]))
+            FLAGGED[0] = "tz-aware-time"
         return t, t.isoformat()
     if r == 5:
         s = set(rng.sample([1, 2, 3, "a", "b", 2.5, None, True, "é"], rng.randint(0, 5)))
@@ -292,6 +299,7 @@ def match(expected, got):
 
 def one(seed, i, tier, res, pool):
     rng = random.Random("%s:C10:%d" % (seed, i))
+    FLAGGED[0] = None
     which = rng.choice(["default", "default", "a", "b", "c", "d", "e"])
     if which == "e" and NO_ORJSON:
         which = "a"  # (without orjson dates and times are encoded by the json_default, so a non-delegating one legitimately refuses them)
@@ -474,7 +482,7 @@ def one(seed, i, tier, res, pool):
     if res.get("sample") is None and rich and len(fields) <= 3:
         res["sample"] = {"message": exp_message, "binary_write": repr(fb.ops[-2][1])[:300] if len(fb.ops) > 1 else None}
     if problems:
-        res["violations"].append({"msg": problems[0], "mech": None, "detail": {"case": i, "problems": problems[:8], "message": message}})
+        res["violations"].append({"msg": problems[0], "mech": FLAGGED[0] if (FLAGGED[0] == "tz-aware-time" and "must not have tzinfo set" in problems[0]) else None, "detail": {"case": i, "problems": problems[:8], "message": message}})
 
 
 class FaultyFile(RecordingFile):
